@@ -82,9 +82,14 @@ func Verif_C10_AuthVerify() {
 	var key [KeySize]byte
 	copy(key[:], verifrt.Bytes(32))
 	m := verifrt.Bytes(n)
-	digest := verifrt.Bytes(dl)
-	got := Verify(digest, m, &key)
+	// digest = (first dl bytes of the full 64-byte HMAC) XOR an arbitrary mask: still every
+	// digest value, but a counterexample with mask = 0 replays natively with the real HMAC
 	want := c10HMACSHA512(key[:], m)
+	digest := verifrt.Bytes(dl)
+	for i := range digest {
+		digest[i] ^= want[i]
+	}
+	got := Verify(digest, m, &key)
 	if dl != 32 {
 		verifrt.Assert(!got, "digest of the wrong length is rejected")
 		verifrt.Reach("verify-len")
